@@ -103,6 +103,7 @@ func c05Registry(repo string) []c05pred {
 var c05Shapes = []string{
 	"_", "foo", "[]", "'hello world'", "0", "1", "-1", "9223372036854775807", "-9223372036854775808", "1.5", "-0.0",
 	"f(a)", "f(V%d)", "a-b", "foo/1", "[a,b]", "[a|T%d]", "[a|b]", "\"str\"", "user_input", "S", "(foo, bar)", "call(foo)", "[1,2,3]", "'$VAR'(1)", "{a}",
+	"[65299]", "['３']", "'٣'", // a digit that is not ASCII, as code, as character and as atom text
 	"''", "a = ''", "f('', '')", "- ''", "'' / 0", // the empty atom, alone, beside operators and as an argument
 	"[a|B%d]", "W%d", // B<i> is bound to [b] and W<i> to f(x) before the goal runs: the same terms as [a,b] and f(x), built another way
 }
@@ -280,7 +281,10 @@ func c05Tasks(repo string, seed int64, tier string) []c05task {
 		}
 	}
 	// texts: every string over the alphabet up to length 2, length 3 sampled (thorough: all), truncations and mutations of valid texts
-	alpha := []string{"a", "X", "1", "_", "(", ")", "[", "]", "{", "}", ",", "|", ".", "-", "+", ":", "'", "\"", "\\", "%", "/", "*", " ", "\n", "0'", "`", "\xff", "é", ":-", "0x", "e"}
+	alpha := []string{"a", "X", "1", "_", "(", ")", "[", "]", "{", "}", ",", "|", ".", "-", "+", ":", "'", "\"", "\\", "%", "/", "*", " ", "\n", "0'", "`", "\xff", "é", ":-", "0x", "e",
+		// characters of other Unicode classes: digits that are not ASCII (Nd), other numbers, upper and title case letters,
+		// no-break and zero-width spaces
+		"３", "٣", "²", "Ⅷ", "É", "ǅ", "\u00a0", "\u200b"}
 	var strs []string
 	for _, a := range alpha {
 		strs = append(strs, a)
@@ -421,11 +425,48 @@ func c05RunTask(t c05task) (string, bool, string) {
 	}
 }
 
+// c05Alone runs one task in a worker of its own with a long watchdog; ok = it reported a result
+func c05Alone(outDir string, seed int64, tier, repo, dir string, i int) (class string, bad bool, detail string, ok bool) {
+	cmd := exec.Command(os.Args[0], "-out", outDir, "-seed", fmt.Sprint(seed), "-tier", tier, "-repo", repo, "-c05from", fmt.Sprint(i), "-c05to", fmt.Sprint(i+1), "C05")
+	cmd.Dir = dir
+	var out strings.Builder
+	cmd.Stdout = &out
+	if err := cmd.Start(); err != nil {
+		return "", false, "", false
+	}
+	done := make(chan error, 1)
+	go func() { done <- cmd.Wait() }()
+	select {
+	case <-done:
+	case <-time.After(75 * time.Second):
+		cmd.Process.Kill()
+		<-done
+		return "", false, "", false
+	}
+	for _, line := range strings.Split(out.String(), "\n") {
+		if !strings.HasPrefix(line, "R ") {
+			continue
+		}
+		parts := strings.SplitN(line[2:], " ", 3)
+		if len(parts) == 3 {
+			fmt.Sscan(parts[1], &bad)
+			cd := strings.SplitN(parts[2], "\t", 2)
+			if len(cd) == 2 {
+				detail = cd[1]
+			}
+			return cd[0], bad, detail, true
+		}
+	}
+	return "", false, "", false
+}
+
 func c05Worker(repo string, seed int64, tier string) {
 	debug.SetMaxStack(64 << 20)
 	limitMemory(4 << 30)
 	ts := c05Tasks(repo, seed, tier)
 	w := bufio.NewWriter(os.Stdout)
+	fmt.Fprintln(w, "READY")
+	w.Flush()
 	for i := c05From; i < c05To && i < len(ts); i++ {
 		fmt.Fprintf(w, "S %d\n", i)
 		w.Flush()
@@ -488,12 +529,16 @@ func runC05(outDir string, seed int64, tier string, repo string) {
 				stop := make(chan struct{})
 				killed := false
 				go func() {
+					// until the worker has built its task list and said so, only a generous limit applies:
+					// start-up time depends on the load of the machine, not on the implementation
+					limit := 180 * time.Second
 					for {
 						select {
 						case <-beat:
+							limit = 15 * time.Second
 						case <-stop:
 							return
-						case <-time.After(15 * time.Second):
+						case <-time.After(limit):
 							killed = true
 							cmd.Process.Kill()
 							return
@@ -539,22 +584,27 @@ func runC05(outDir string, seed int64, tier string, repo string) {
 					cls := "process-aborted"
 					if killed {
 						cls = "wedged-without-polling-the-context"
+						// a watchdog kill may be the machine's load, not the task: the task is run once more, alone
+						if c, bad, d, ok := c05Alone(outDir, seed, tier, repo, dir, current); ok {
+							mu.Lock()
+							results[current] = &res{class: c, bad: bad, detail: d}
+							mu.Unlock()
+							from = current + 1
+							continue
+						}
 					}
 					mu.Lock()
 					results[current] = &res{class: cls, bad: true, detail: fmt.Sprintf("%v; stderr: %s", err, firstLines(stderr.String(), 6))}
 					mu.Unlock()
 					from = current + 1
 				} else if last+1 < hi {
-					// the worker ended between two tasks (killed while starting up, or out of memory before its first line): go on after the last result
+					// the worker ended between two tasks (while starting up, or out of memory before its first line):
+					// no task was running, so no task is blamed; go on after the last result
 					retries++
-					if retries > 3 {
-						mu.Lock()
-						results[last+1] = &res{class: "process-aborted", bad: true, detail: fmt.Sprintf("%v; worker ended before reporting; stderr: %s", err, firstLines(stderr.String(), 6))}
-						mu.Unlock()
-						from, retries = last+2, 0
-					} else {
-						from = last + 1
+					if retries > 5 {
+						fatal("C05 worker for tasks %d.. ends before running anything: %v; stderr: %s", last+1, err, firstLines(stderr.String(), 6))
 					}
+					from = last + 1
 				} else {
 					from = hi
 				}
@@ -587,7 +637,7 @@ func runC05(outDir string, seed int64, tier string, repo string) {
 	for i := 0; i < len(ts) && len(sum.Samples) < 10; i += len(ts)/10 + 1 {
 		sum.Samples = append(sum.Samples, ts[i].kind+": "+ts[i].text)
 	}
-	sum.Rule = "every predicate registered in interpreter.go or defined by bootstrap.pl (read from the sources of this run; halt/0,1 excluded) x argument shapes (unbound, atoms, [] , integers incl. both 64-bit extremes, floats, compounds, pairs, indicators, proper/partial/improper lists, string, stream alias and stream term, nested callables, {}): all shapes for arity 1, all pairs for arity 2 (quick: 330 sampled pairs per predicate), sampled tuples above; every argument position of every predicate of arity 1-3 with seven integers whose product with a small element size wraps around (k*2^60+j, 2^32), the others unbound, an atom or a partial list; every string over a 31-symbol alphabet of significant bytes up to length 2, sampled longer ones (thorough: all of length 3), every truncation and random one-byte mutations of four valid texts, each as query text and as program text; every task in a fresh interpreter inside an isolated worker process with a memory limit, a step budget and a 15 s watchdog; non-trivial = the task does something other than fail or be rejected"
+	sum.Rule = "every predicate registered in interpreter.go or defined by bootstrap.pl (read from the sources of this run; halt/0,1 excluded) x argument shapes (unbound, atoms, [] , integers incl. both 64-bit extremes, floats, compounds, pairs, indicators, proper/partial/improper lists, string, stream alias and stream term, nested callables, {}): all shapes for arity 1, all pairs for arity 2 (quick: 330 sampled pairs per predicate), sampled tuples above; every argument position of every predicate of arity 1-3 with seven integers whose product with a small element size wraps around (k*2^60+j, 2^32), the others unbound, an atom or a partial list; every string over a 39-symbol alphabet of significant bytes and characters of every Unicode class the lexer distinguishes (non-ASCII digits, other numbers, upper/title case, special spaces) up to length 2, sampled longer ones (thorough: all of length 3), every truncation and random one-byte mutations of four valid texts, each as query text and as program text; every task in a fresh interpreter inside an isolated worker process with a memory limit, a step budget and a 15 s watchdog; non-trivial = the task does something other than fail or be rejected"
 	sum.write(outDir, start)
 }
 
